@@ -92,16 +92,16 @@ def Expr.reads : Expr → List S
 /-- assignment targets: a plain name, or `base[i1][i2]…` (reads `base`) -/
 inductive Target
   | name (n : S)
-  | item (base : S) (idx : List S)      -- index texts are literals (`repr` of path parts / of the tag key)
+  | item (base : S) (idx : List LitV)   -- indexes are literals (path parts, the tag key)
   deriving Repr, DecidableEq, Inhabited
 
-def idxText : List S → S
+def idxText (p : Char → Bool) : List LitV → S
   | [] => []
-  | i :: r => '[' :: i ++ ']' :: idxText r
+  | i :: r => '[' :: i.text p ++ ']' :: idxText p r
 
-def Target.text : Target → S
+def Target.text (p : Char → Bool) : Target → S
   | .name n => n
-  | .item b idx => b ++ idxText idx
+  | .item b idx => b ++ idxText p idx
 
 def Target.reads : Target → List S
   | .name _ => []
@@ -127,7 +127,7 @@ def Simple.text (p : Char → Bool) : Simple → S
   | .expr e => e.text p
   | .assign tight ts v =>
       let eq : S := if tight then ['='] else " = ".toList
-      joinWith eq (ts.map Target.text ++ [v.text p])
+      joinWith eq (ts.map (Target.text p) ++ [v.text p])
   | .ret e => "return ".toList ++ e.text p
 
 def Simple.reads : Simple → List S
@@ -291,10 +291,10 @@ structure GIn where
   extraPaths : Bool := false          -- a path is registered for a field that is not dumped under it
   deriving Repr, DecidableEq, Inhabited
 
-def PathPart.repr (printable : Char → Bool) : PathPart → S
-  | .str s => pyRepr printable s
-  | .int i => intRepr i
-  | .bool b => if b then "True".toList else "False".toList
+def PathPart.lit : PathPart → LitV
+  | .str s => .str s
+  | .int i => .int i
+  | .bool b => if b then .true_ else .false_
 
 def COp.tOrF : COp → Bool
   | .truthy => true | .falsy => true | _ => false
@@ -381,21 +381,24 @@ def fieldStmt (printable : Char → Bool) (g : GIn) (i : Nat) (f : GField) : Lis
     [.if_ (fieldCond printable g i f) [.line { parts := [appendStmt (.lit (.str key)) (oAttr f.name)] }] none]
   | .path ps =>
     [.if_ (fieldCond printable g i f)
-      [.line { parts := [.assign false [.item "paths".toList (ps.map (PathPart.repr printable))] (asdictOf (oAttr f.name))] }] none]
+      [.line { parts := [.assign false [.item "paths".toList (ps.map PathPart.lit)] (asdictOf (oAttr f.name))] }] none]
 
 def fieldStmts (printable : Char → Bool) (g : GIn) : Nat → List GField → List L2
   | _, [] => []
   | i, f :: r => fieldStmt printable g i f ++ fieldStmts printable g (i + 1) r
+
+/-- the test of a skip-defaults line: `Meta.skip_defaults_if` on the value, or equality with the default -/
+def sdRhs (printable : Char → Bool) (g : GIn) (i : Nat) (f : GField) : Expr :=
+  match g.skipDefaultsIf with
+  | some c => c.final printable (oAttr f.name) skipDefaultsValue
+  | none => .bin (oAttr f.name) (.cmp .eq) (.name (defaultName i))
 
 /-- `skip_default_assignments` -/
 def skipDefaultLines (printable : Char → Bool) (g : GIn) : Nat → List GField → List L1
   | _, [] => []
   | i, f :: r =>
     (if f.hasDefault then
-      let rhs : Expr := match g.skipDefaultsIf with
-        | some c => c.final printable (oAttr f.name) skipDefaultsValue
-        | none => .bin (oAttr f.name) (.cmp .eq) (.name (defaultName i))
-      [L1.line { parts := [.assign false [.name (skipName i)] (.bin (.name (skipName i)) .or_ rhs)] }]
+      [L1.line { parts := [.assign false [.name (skipName i)] (.bin (.name (skipName i)) .or_ (sdRhs printable g i f))] }]
     else []) ++ skipDefaultLines printable g (i + 1) r
 
 def skipTargets : Nat → List GField → List Target
@@ -418,6 +421,21 @@ def GIn.effTagKey (g : GIn) : S := if g.tagKey.isEmpty then "__tag__".toList els
 
 def GIn.hasPaths (g : GIn) : Bool := g.extraPaths || g.fields.any (fun f => isPath f.key)
 
+/-- `if skip_defaults:` with the skip-defaults lines (nothing when no field has a default) -/
+def sdBlock (printable : Char → Bool) (g : GIn) : List L2 :=
+  match skipDefaultLines printable g 0 g.fields with
+  | [] => []
+  | ls => [L2.if_ (nm "skip_defaults") ls none]
+
+/-- the last lines: the tag entry when the class has a tag, and the `return` -/
+def tailStmts (g : GIn) : List L2 :=
+  match g.tagOn with
+  | some t =>
+    [L2.s (.line { parts := [.assign false [.name "result".toList] (.call1 (nm "dict_factory") (nm "result"))] }),
+     L2.s (.line { parts := [.assign false [.item "result".toList [.str g.effTagKey]] (.lit (.str t))] }),
+     L2.s (.line { parts := [.ret (nm "result")] })]
+  | none => [L2.s (.line { parts := [.ret (.call1 (nm "dict_factory") (nm "result"))] })]
+
 /-- the body of `cls_asdict` -/
 def genBody (printable : Char → Bool) (g : GIn) : List L2 :=
   (if g.preDict then [L2.s (.line { parts := [.expr (.call1 (nm "__pre_dict__") (nm "o"))] })] else [])
@@ -427,20 +445,13 @@ def genBody (printable : Char → Bool) (g : GIn) : List L2 :=
       [L2.if_ (.bin (nm "exclude") (.cmp .is_) (.lit .none))
           [.line { parts := [.assign true (skipTargets 0 g.fields) (.lit .false_)] }]
           (some [.line { parts := excludeAssigns printable 0 g.fields, sep := [';'] }])]
-      ++ (match skipDefaultLines printable g 0 g.fields with
-          | [] => []
-          | ls => [L2.if_ (nm "skip_defaults") ls none])
+      ++ sdBlock printable g
       ++ fieldStmts printable g 0 g.fields)
   ++ (if g.hasPaths then
         [L2.s (.line { parts := [.expr (.bin (nm "result") .and_ (.call1 (.attr (nm "paths") "update".toList) (nm "result"))),
                                  .assign false [.name "result".toList] (nm "paths")] })]
       else [])
-  ++ (match g.tagOn with
-      | some t =>
-        [L2.s (.line { parts := [.assign false [.name "result".toList] (.call1 (nm "dict_factory") (nm "result"))] }),
-         L2.s (.line { parts := [.assign false [.item "result".toList [pyRepr printable g.effTagKey]] (.lit (.str t))] }),
-         L2.s (.line { parts := [.ret (nm "result")] })]
-      | none => [L2.s (.line { parts := [.ret (.call1 (nm "dict_factory") (nm "result"))] })])
+  ++ tailStmts g
 
 def genCode (printable : Char → Bool) (g : GIn) : S := renderBody printable (genBody printable g)
 
